@@ -113,6 +113,21 @@ func enumFormat(e *common.Enum) {
 			do(e, "format-files|"+styleKey(st)+"|"+setKey(fs), func(c *common.Ctx) { formatRelation(c, st, fs) })
 		}
 	}
+	// per-file independence: what a multi-file run writes for (prints for) one file is what a run on that file alone
+	// writes - whatever happened to the files before it, including files the library accepts but the formatter cannot
+	// render (statement kinds it does not support, alone and after other statements)
+	ind := append(append([]file{}, baseClasses[:4]...), unformattable...)
+	indSets := subsets(ind, 2, true)
+	if e.Thorough() {
+		indSets = subsets(ind, 3, true)
+	}
+	for _, fs := range indSets {
+		if len(fs) < 2 {
+			continue
+		}
+		fs := fs
+		do(e, "format-independence|"+setKey(fs), func(c *common.Ctx) { formatIndependence(c, fs) })
+	}
 	// stdin and inline variants: every class x style set
 	for _, st := range styles {
 		for _, f := range baseClasses {
@@ -247,6 +262,70 @@ func formatRelation(c *common.Ctx, st []string, files []file) {
 		}
 	}
 	c.Outcome("format-files:" + ov.String())
+}
+
+// unformattable: inputs every library entry point accepts but the CLI formatter gives up on.
+var unformattable = []file{
+	{"t1.sql", "TRUNCATE TABLE t;\n", "unformattable"},
+	{"t2.sql", "delete from sessions where id = 1;\nTRUNCATE TABLE t;\n", "unformattable-after-output"},
+	{"t3.sql", "with x as (select 1) select a from x where a in (select 2);\nSHOW TABLES;\n", "unformattable-after-nesting"},
+}
+
+func formatIndependence(c *common.Ctx, files []file) {
+	sb := newSandbox()
+	defer sb.close()
+	nm := names(files)
+	c.Input(describe(cat([]string{"format", "-i"}, nm...), files, nil))
+	// reference: each file alone
+	alone := map[string]string{}
+	aloneOut := map[string]string{}
+	for _, f := range files {
+		sb.put([]file{f})
+		sb.run(nil, nil, "format", "-i", f.Name)
+		n, _ := sb.read(f.Name)
+		alone[f.Name] = n
+		sb.put([]file{f})
+		aloneOut[f.Name] = sb.run(nil, nil, "format", f.Name).Stdout
+	}
+	sb.put(files)
+	args := cat([]string{"format", "-i"}, nm...)
+	sb.run(nil, nil, args...)
+	d := describe(args, files, nil)
+	for _, f := range files {
+		n, _ := sb.read(f.Name)
+		if n != alone[f.Name] {
+			c.Fail("inplace-depends-on-other-files", fmt.Sprintf("format -i on several files writes %q into %s (%s), format -i on that file alone writes %q\n%s", common.Trim(n, 300), f.Name, f.Class, common.Trim(alone[f.Name], 300), d))
+		}
+		if n != f.Content {
+			c.NonTrivial()
+		}
+	}
+	sb.put(files)
+	args = cat([]string{"format"}, nm...)
+	r := sb.run(nil, nil, args...)
+	var parts []string
+	for _, f := range files {
+		if aloneOut[f.Name] != "" {
+			parts = append(parts, aloneOut[f.Name])
+		}
+	}
+	if !r.TimedOut && !concatMatches(r.Stdout, parts) {
+		c.Fail("stdout-depends-on-other-files", fmt.Sprintf("format on several files prints %q, the single-file runs print %q in turn\n%s", common.Trim(r.Stdout, 400), parts, describe(args, files, nil)))
+	}
+	// --check: a file is reported iff it is reported alone (exit status only: 0 iff every single run exits 0)
+	want := 0
+	for _, f := range files {
+		sb.put([]file{f})
+		if sb.run(nil, nil, "format", "--check", f.Name).Exit != 0 {
+			want = 1
+		}
+	}
+	sb.put(files)
+	rc := sb.run(nil, nil, cat([]string{"format", "--check"}, nm...)...)
+	if (rc.Exit != 0) != (want != 0) {
+		c.Fail("check-depends-on-other-files", fmt.Sprintf("format --check on several files exits %d, the single-file runs say %d\n%s", rc.Exit, want, d))
+	}
+	c.Outcome("format-independence")
 }
 
 func formatStdin(c *common.Ctx, st []string, f file) {
